@@ -87,7 +87,10 @@ def mappable_errors(ck, F):
         trips = 0
         for r in path_records(run_, paths=iteration_paths(run_)):
             names = [c.callee for c in r["calls"]]
-            if not any(x.endswith("SourceFileMap::add_empty") for x in names):
+            # directly, or through a private helper of the analyzer that registers the empty entry (`add_ignored_line`)
+            empties = {p for p, hb in F.bodies.items() if SA + "::" in p and p != run_.path and
+                       any(x.callee.endswith("SourceFileMap::add_empty") for x in hb.calls())}
+            if not any(x.endswith("SourceFileMap::add_empty") or x in empties for x in names):
                 continue
             trips += 1
             direct = any(a[0].endswith("DiagnosticMessage") and a[1] == "Error" for a in r["aggs"])
